@@ -208,12 +208,12 @@ def raising_load(how, out, gpath, genome, k, chrom):
 
 
 def interleaved_loads(out, gpath, genome, chroms, order):
-    """Two loads through DensityData(...) of two DIFFERENT result files of one directory, run as two threads. Each pauses after its
-    copy of the raw file has been made ("copied") and before it publishes the exchanged copy ("publish"); `order` is the sequence
-    [[loader, point], ...] in which the four pauses are released. Returns the outcome of each load."""
+    """Two loads through DensityData(...) of two DIFFERENT result files of one directory, run as two threads. Each pauses before it
+    copies the raw file ("start"), after the copy has been made ("copied") and before it publishes the exchanged copy ("publish");
+    `order` is the sequence [[loader, point], ...] in which the six pauses are released (each release lets that loader run to its next pause). Returns the outcome of each load."""
     import threading
     tl = threading.local()
-    points = [(i, pt) for i in (0, 1) for pt in ("copied", "publish")]
+    points = [(i, pt) for i in (0, 1) for pt in ("start", "copied", "publish")]
     gates = {k: threading.Event() for k in points}
     arrived = {k: threading.Event() for k in points}
     done = [threading.Event(), threading.Event()]
@@ -226,6 +226,7 @@ def interleaved_loads(out, gpath, genome, chroms, order):
             gates[(a, point)].wait(timeout=20)
 
     def copy(src, dst, *a, **k):
+        pause("start")
         r = real_copy(src, dst, *a, **k)
         pause("copied")
         return r
@@ -259,7 +260,7 @@ def interleaved_loads(out, gpath, genome, chroms, order):
                 time.sleep(0.005)
             gates[(i, pt)].set()
             # let the released loader run up to its next pause (or to its end) before the next release
-            nxt = (i, "publish") if pt == "copied" else None
+            nxt = {"start": (i, "copied"), "copied": (i, "publish")}.get(pt)
             t0 = time.time()
             while time.time() - t0 < 10 and not done[i].is_set() and not (nxt and arrived[nxt].is_set()):
                 time.sleep(0.005)
